@@ -37,7 +37,8 @@ EXPLANATION = (
     "success edges of the loop test and the limit test reach only raise. (G4) the network is "
     "reached only through _get_single; with follow_redirects false get() returns one "
     "_get_single result unchanged. (G5) the loop test is `url in chain` before the fetch and "
-    "the appended element is the fetched URL."
+    "the appended element is the fetched URL. "
+    "(G6) the accessor of the response the follower reads for the next hop returns self.meta unaltered."
 )
 
 SESSION = "client.session:GeminiClient"
